@@ -35,9 +35,14 @@ def derivative_contract(env, factory, const=None, exempt=(), history=True, equal
         import time as _time
         t0 = _time.time()
         o = hB.compute(ins, havoc="O0" if all_approx else None)
-        j = hB.partials(ins) if not all_approx else hB.csx.new_jac()
+        fr = list(hB.last_frame)
+        if not all_approx:
+            j = hB.partials(ins)
+            fr += [("compute_partials:" + n, idx) for n, idx in hB.last_partials_frame]
+        else:
+            j = hB.csx.new_jac()
         timing[0] = max(timing[0], _time.time() - t0)
-        return o, j, list(hB.last_frame)
+        return o, j, fr
 
     generic = None
     npaths = 0
@@ -78,7 +83,7 @@ def derivative_contract(env, factory, const=None, exempt=(), history=True, equal
                 env.nodep("C03", "H-out %s does not depend on the previous outputs%s" % (n, tag if env.sym else ""), outs[n], "O0<")
         if frame:
             env.holds("C03", "H-frame inputs unchanged by compute%s" % (tag if env.sym else ""), not frame_writes,
-                      "compute wrote to its inputs: %s" % (frame_writes[:4],))
+                      "compute / compute_partials wrote to the inputs: %s" % (frame_writes[:4],))
             env.holds("C01,C02", "D-cs-safe compute leaves inputs unchanged%s" % (tag if env.sym else ""), not frame_writes,
                       "compute wrote to its inputs: %s" % (frame_writes[:4],))
             if any(inf['method'] == 'cs' for inf in declared.values()):
@@ -224,6 +229,15 @@ def isolation_contract(env, factory, sibling, const=None, setup_model=None, pre=
             hS.partials(insS)
         try:
             oA = hA.compute(ins)
+            # ... and a twin of A itself (same class, same configuration, as in a second Problem of the same script) is
+            # evaluated at another point between A's evaluation and A's linearisation
+            hT = env.comp("iso.twin", factory, setup_model)
+            if pre:
+                pre(env, hT)
+            insT = hT.inputs(tag="Q2.", const=const)
+            hT.compute(insT)
+            if ana_keys:
+                hT.partials(insT)
             jA = hA.partials(ins) if ana_keys else None
         except S.OutsideFragment:
             raise
@@ -245,7 +259,7 @@ def isolation_contract(env, factory, sibling, const=None, setup_model=None, pre=
             env.eq("C20,C03,C01,C02", "I-iso d%s/d%s unaffected by an independent instance%s" % (k[0], k[1], tag),
                    jA.dense(k), j.dense(k))
         # the instances are re-created for the next path
-        for key in ("iso.A", "iso.other"):
+        for key in ("iso.A", "iso.other", "iso.twin"):
             env.comps.pop(key, None)
     return hF
 
@@ -326,12 +340,14 @@ def implicit_contract(env, factory, setup_model=None, pre=None, requires=None):
         for mode in ("fwd", "rev"):
             del spshim.SOLVES[:]
             dv = {n: env.var("d_%s.%s" % (mode, n), h.shape[n]) for n in h.out_names}
-            zero = {n: env.const(np.zeros(h.shape[n])) for n in h.out_names}
+            # the vector that receives the solution holds whatever the previous iteration of an outer linear solver left
+            # there (OpenMDAO does not clear it): the result must not depend on it
+            stale = {n: env.var("stale_%s.%s" % (mode, n), h.shape[n]) for n in h.out_names}
             if mode == "fwd":
-                do, dr = h.solve_linear(zero, dv, mode)
+                do, dr = h.solve_linear(stale, dv, mode)
                 sol, rhs = do, dv
             else:
-                do, dr = h.solve_linear(dv, zero, mode)
+                do, dr = h.solve_linear(dv, stale, mode)
                 sol, rhs = dr, dv
             env.holds("C02", "S-lin[%s] one factorised solve" % mode, len(spshim.SOLVES) == 1, "%d solves" % len(spshim.SOLVES))
             if len(spshim.SOLVES) != 1 or len(h.out_names) != 1:
